@@ -2,6 +2,7 @@ import PpciVerif.Model.Proto
 import PpciVerif.Model.CBridge
 import PpciVerif.Model.CLower
 import PpciVerif.Model.CAssign
+import PpciVerif.Model.CSwitch
 /-! Request interpreter of the C01 line-protocol driver (compiled, so that the driver starts fast).
 
 Expressions are sent in prefix form (words separated by blanks):
@@ -26,6 +27,8 @@ Requests:
   events x                Model.CAssign.events (order and multiplicity of loads/stores/calls of an assignment expression)
                           x := c | call <f> x | bin x x | lv l | asg l x | casg l x | inc l | comma x x
                           l := V <n> | I x | D x | M x                       -> ok <ev ev …> | ok -
+  switches <k> s1 … sk    Model.CSwitch.gen on a statement list: per switch (test-block order) `c1,c2,…|D` or `…|N`
+                          s := case <int> | default | o | block <k> s… | if <k1> <k2> s… s… | loop <k> s… | switch <k> s…
   mlayout t               Model.CLayout: size align [offsets]
   slayout t               Spec.CLayout:  size align [offsets]
 -/
@@ -203,6 +206,44 @@ def parseRAll (ws : List String) : Option Model.CAssign.RExp :=
   | some (e, []) => some e
   | _ => none
 
+mutual
+  def parseSt : Nat → List String → Option (Model.CSwitch.St × List String)
+    | 0, _ => none
+    | fuel + 1, ws =>
+    match ws with
+    | "case" :: v :: rest => do
+        let z ← int? v
+        pure (.case z, rest)
+    | "default" :: rest => some (.default, rest)
+    | "o" :: rest => some (.other, rest)
+    | "block" :: n :: rest => do
+        let k ← nat? n
+        let (b, r) ← parseSts fuel k rest
+        pure (.block b, r)
+    | "loop" :: n :: rest => do
+        let k ← nat? n
+        let (b, r) ← parseSts fuel k rest
+        pure (.loop b, r)
+    | "switch" :: n :: rest => do
+        let k ← nat? n
+        let (b, r) ← parseSts fuel k rest
+        pure (.switch b, r)
+    | "if" :: n1 :: n2 :: rest => do
+        let k1 ← nat? n1
+        let k2 ← nat? n2
+        let (t, r) ← parseSts fuel k1 rest
+        let (e, r) ← parseSts fuel k2 r
+        pure (.ifs t e, r)
+    | _ => none
+  def parseSts : Nat → Nat → List String → Option (Model.CSwitch.Sts × List String)
+    | 0, _, _ => none
+    | _ + 1, 0, ws => some (.nil, ws)
+    | fuel + 1, k + 1, ws => do
+        let (s, r) ← parseSt fuel ws
+        let (l, r) ← parseSts fuel k r
+        pure (.cons s l, r)
+end
+
 def showOptInt : Option Int → String
   | some v => s!"ok {v}"
   | none => "ok none"
@@ -262,6 +303,11 @@ def step (line : String) : String :=
   | "events" :: ws => match parseRAll ws with
       | some e => let es := Model.CAssign.events e
                   if es.isEmpty then "ok -" else "ok " ++ Model.CAssign.showEvents es
+      | none => "bad-op"
+  | "switches" :: n :: ws => match nat? n with
+      | some k => match parseSts (2 * ws.length + 2) k ws with
+          | some (l, []) => "ok " ++ Model.CSwitch.showRecs (Model.CSwitch.genL l []).2
+          | _ => "bad-op"
       | none => "bad-op"
   | "mlayout" :: ws => match parseTy ws with
       | some t => s!"ok {Model.CLayout.sizeof t} {Model.CLayout.alignment t} {showNatList (Model.CLayout.offsets t)}"
